@@ -6,4 +6,5 @@ CHECK_DEADLOCK FALSE
 CONSTANTS
   MaxReq = 1000
   UnlockFirst = FALSE
+  WithMap = FALSE
   KeepHist = FALSE
